@@ -87,6 +87,10 @@ type world struct {
 	dead     bool
 
 	baseGoroutines int
+
+	// a real PIT-CS table created at start-up, as each forwarding thread has one: the Content Store that cs/config must govern
+	cs       *table.PitCsTree
+	csStored int // distinct Data inserted so far
 }
 
 var configured bool
@@ -132,6 +136,7 @@ func newWorld(allowLocalhop bool, fibAlgo string, faces []faceSpec) (*world, err
 	face.VerifMgmtResetFaceTable()
 
 	w := &world{fw: &fakeFw{datas: make(chan captured, 256)}, exited: make(chan any, 1), baseGoroutines: runtime.NumGoroutine()}
+	w.cs = table.NewPitCS(func(table.PitEntry) {})
 	dispatch.InitializeFWThreads([]dispatch.FWThread{w.fw})
 	w.thread = fwmgmt.MakeMgmtThread()
 	go w.thread.VerifRun(func(p any) { w.exited <- p })
@@ -280,6 +285,24 @@ func (w *world) dataPacket(name enc.Name, inFace uint64) ([]captured, string) {
 		}
 	}
 	return mine, st
+}
+
+// csProbe inserts n fresh Data packets into the real Content Store and returns its size, the number of distinct packets stored so
+// far, and the capacity management reports. A store that obeys the configured capacity holds min(stored, capacity) entries.
+func (w *world) csProbe(n int) (size, stored, capacity int) {
+	for i := 0; i < n; i++ {
+		name, _ := enc.NameFromStr(fmt.Sprintf("/verif/cs/%d", w.csStored))
+		d, err := spec.Spec{}.MakeData(name, &ndn.DataConfig{}, enc.Wire{[]byte("x")}, sec.NewSha256Signer())
+		if err != nil {
+			continue
+		}
+		wire := d.Wire.Join()
+		if pkt, _, err := spec.ReadPacket(enc.NewBufferReader(wire)); err == nil && pkt.Data != nil {
+			w.cs.InsertData(pkt.Data, wire)
+			w.csStored++
+		}
+	}
+	return w.cs.CsSize(), w.csStored, table.CsCapacity()
 }
 
 // close stops the management loop (closing the internal face ends Run) and waits for it.
